@@ -117,3 +117,118 @@ def path_reversed(c, kinds):
                   ops.And(c.isinstance(rs[i], {2: 'path.Line', 3: 'path.QuadraticBezier', 4: 'path.CubicBezier'}[len(pts[j])]),
                           ops.eq(bez.bern(_bp(c, rs[i]), u), bez.bern(pts[j], 1 - u))))
     c.ensures('start/end-swapped', ops.And(ops.eq(c.get(rev, 'start'), pts[-1][-1]), ops.eq(c.get(rev, 'end'), pts[0][0])))
+
+
+def _polyline(c, n, closed):
+    """continuous polyline; segment lengths enter through the call-site contract of Line.length
+    (C06): positive numbers"""
+    V = [c.cplx('v%d' % i) for i in range(n + 1)]
+    if closed:
+        V[n] = V[0]
+    for i in range(n):
+        c.assume(ops.ne(V[i], V[i + 1]))
+    segs = [c.new('path.Line', V[i], V[i + 1]) for i in range(n)]
+    if c.mode == 'sym':
+        lens = [c.real('len%d' % i) for i in range(n)]
+        for x in lens:
+            c.assume(ops.lt(0, x))
+
+        def line_length(ip, f, args, kwargs):
+            i = [k for k, sg in enumerate(segs) if sg is args[0]]
+            if not i or len(args) > 1 or any(k in kwargs for k in ('t0', 't1')):
+                return ip.run_func(f, args, kwargs)
+            return lens[i[0]]
+        c.ip.summaries['path.Line.length'] = line_length
+    else:
+        lens = [ops.absv(V[i + 1] - V[i]) for i in range(n)]
+    c._poly_lens = lens
+    return c.new('path.Path', *segs), segs, V
+
+
+@contract('C09', 'path.Path.cropped', params=[{'n': 3, 'closed': False, 'wrap': False, '_no_bounded': True}], level='per-shape', budget=120, tier='thorough')
+def path_cropped_open_3(c, n, closed, wrap):
+    return path_cropped(c, n, closed, wrap)
+
+
+@contract('C09', 'path.Path.cropped', params=[{'n': 2, 'closed': False, 'wrap': False, '_no_bounded': True}, {'n': 3, 'closed': True, 'wrap': False, '_no_bounded': True},
+                                              {'n': 3, 'closed': True, 'wrap': True, '_no_bounded': True}],
+          level='per-shape', budget=120)
+def path_cropped(c, n, closed, wrap):
+    """continuous polylines: cropped(T0,T1) starts at point(T0), ends at point(T1), consecutive
+    pieces are joined, whole segments in between appear in order (wrap-around for closed paths)"""
+    path, segs, V = _polyline(c, n, closed)
+    T0, T1 = c.real('T0'), c.real('T1')
+    c.assume(ops.And(ops.le(0, T0), ops.le(T0, 1), ops.le(0, T1), ops.le(T1, 1), ops.ne(T0, T1)))
+    if wrap:
+        c.assume(ops.And(ops.lt(T1, T0), ops.Not(ops.And(ops.eq(T0, 1), ops.eq(T1, 0)))))
+    else:
+        c.assume(ops.lt(T0, T1))
+    # crop parameters are exactly at a joint or clearly away from it: the code snaps a crop point
+    # whose segment parameter is np.isclose to 0 or 1 (|t| <= 1e-8, |t-1| <= 1e-5+1e-8) to the
+    # joint on purpose, so as not to create degenerate pieces; that band is excluded here
+    lens = c._poly_lens
+    tot = sum(lens[1:], lens[0])
+    J = [sum(lens[:k], 0) / tot for k in range(n + 1)]
+    for T in (T0, T1):
+        for Jk in J:
+            c.assume(ops.Or(ops.eq(T, Jk), ops.lt(c.const('2e-5'), ops.absv(T - Jk))))
+    p0 = c.callm(path, 'point', T0)
+    p1 = c.callm(path, 'point', T1)
+    out = c.outcome(lambda: c.callm(path, 'cropped', T0, T1))
+    c.ensures('returns', out.kind == 'ok', exception=out.exc)
+    if out.kind != 'ok':
+        return
+    pieces = list(c.items(out.value))
+    c.ensures('at-least-one-piece', len(pieces) >= 1)
+    c.ensures('starts-at-point(T0)', ops.eq(c.get(pieces[0], 'start'), p0))
+    c.ensures('ends-at-point(T1)', ops.eq(c.get(pieces[-1], 'end'), p1))
+    for i in range(len(pieces) - 1):
+        c.ensures('pieces-%d-and-%d-are-joined' % (i, i + 1), ops.eq(c.get(pieces[i], 'end'), c.get(pieces[i + 1], 'start')))
+    c.ensures('no-more-pieces-than-segments-plus-one', len(pieces) <= n + 1)
+    # every piece lies on a segment of the path: it is a whole segment or a sub-segment of one
+    for i, pc in enumerate(pieces):
+        on = []
+        for k in range(n):
+            d = V[k + 1] - V[k]
+            a, b = c.get(pc, 'start') - V[k], c.get(pc, 'end') - V[k]
+            la, lb = ops.dot(a, d), ops.dot(b, d)
+            on.append(ops.And(ops.eq(ops.cross(a, d), 0), ops.eq(ops.cross(b, d), 0), ops.le(0, la), ops.le(la, lb), ops.le(lb, ops.norm2(d))))
+        c.ensures('piece-%d-is-a-forward-sub-segment-of-some-segment' % i, ops.Or(*on))
+
+
+@contract('C09', 'path.Path.cropped', params=[{'_no_bounded': True}])
+def path_cropped_backwards_on_an_open_path_is_refused(c):
+    path, segs, V = _polyline(c, 2, False)
+    c.assume(ops.ne(V[0], V[2]))
+    T0, T1 = c.real('T0'), c.real('T1')
+    c.assume(ops.And(ops.lt(0, T1), ops.lt(T1, T0), ops.lt(T0, 1)))
+    out = c.outcome(lambda: c.callm(path, 'cropped', T0, T1))
+    c.ensures('ValueError', out.kind == 'raise' and out.exc == 'ValueError')
+
+
+@contract('C09', 'path.Path.cropped', params=[{'kinds': k, 'closed': cl, '_bounded_only': True} for k in ('LL', 'LQC', 'CLC') for cl in (False, True)])
+def path_cropped_sampled(c, kinds, closed):
+    """bounded stand-in: crops of mixed paths (wrap-around for closed ones), incl. length"""
+    from contracts.c05 import mkpath
+    path, segs, pts = mkpath(c, kinds, continuous=True)
+    if closed:
+        segs[-1].end = pts[0][0]
+        path = c.new('path.Path', *segs)
+    for s in segs:
+        c.assume(s.start != s.end)
+    T0, T1 = abs(c.real('T0')) % 1.0, abs(c.real('T1')) % 1.0
+    c.assume(abs(T0 - T1) > 1e-3)
+    if not closed:
+        T0, T1 = min(T0, T1), max(T0, T1)
+    # stay away from joints by more than the snapping tolerance
+    for k in range(1, len(segs)):
+        Tk = path.t2T(k, 0)
+        c.assume(abs(T0 - Tk) > 1e-6 and abs(T1 - Tk) > 1e-6)
+    cr = path.cropped(T0, T1)
+    sc = max(abs(z) for P in pts for z in P) + 1e-300
+    c.ensures('starts-at-point(T0)', abs(cr.start - path.point(T0)) <= 1e-7 * sc)
+    c.ensures('ends-at-point(T1)', abs(cr.end - path.point(T1)) <= 1e-7 * sc)
+    c.ensures('pieces-joined', all(abs(cr[i].end - cr[i + 1].start) <= 1e-9 * sc for i in range(len(cr) - 1)))
+    L = path.length()
+    want = path.length(T0, T1) if T0 < T1 else path.length(T0, 1) + path.length(0, T1)
+    c.ensures('length-is-length(T0,T1)', abs(cr.length() - want) <= 1e-6 * L)
